@@ -109,20 +109,7 @@ func (ex *Exec) vrtCall(fn *ssa.Function, args []Value, pos token.Pos) Value {
 				tag = Tag(i)
 			}
 		}
-		switch x := args[0].(Iface).v.(type) {
-		case Ptr:
-			if x.o != nil {
-				x.o.tag = tag
-			}
-		case Slice:
-			if x.o != nil {
-				x.o.tag = tag
-			}
-		case *Map:
-			if x != nil && x.o != nil {
-				x.o.tag = tag
-			}
-		}
+		ex.tagDeep(args[0].(Iface).v, tag, 0, map[*Obj]bool{})
 		return nil
 	case "Cut":
 		panic(stopf(StopCut, "%s", cstr(args[0])))
@@ -173,3 +160,53 @@ func (ex *Exec) interpret(fn *ssa.Function, args []Value) Value {
 	return fr.result
 }
 
+
+// tagDeep tags every object reachable from v (pointers, slices, maps, nested
+// aggregates) with the region tag.
+func (ex *Exec) tagDeep(v Value, tag Tag, depth int, seen map[*Obj]bool) {
+	if depth > 6 {
+		return
+	}
+	mark := func(o *Obj) bool {
+		if o == nil || seen[o] || o.id < 0 {
+			return false
+		}
+		seen[o] = true
+		o.tag = tag
+		return true
+	}
+	switch x := v.(type) {
+	case Ptr:
+		if x.c != nil && mark(x.o) {
+			ex.tagDeep(*x.c, tag, depth+1, seen)
+		}
+	case Slice:
+		if mark(x.o) {
+			for _, e := range x.a {
+				switch e.(type) {
+				case *Term, float64, float32, string:
+					return
+				}
+				ex.tagDeep(e, tag, depth+1, seen)
+			}
+		}
+	case *Map:
+		if x != nil && mark(x.o) {
+			for _, e := range x.m {
+				ex.tagDeep(e.v, tag, depth+1, seen)
+			}
+		}
+	case Struct:
+		for _, e := range x {
+			ex.tagDeep(e, tag, depth+1, seen)
+		}
+	case Array:
+		for _, e := range x {
+			ex.tagDeep(e, tag, depth+1, seen)
+		}
+	case Iface:
+		if x.t != nil {
+			ex.tagDeep(x.v, tag, depth+1, seen)
+		}
+	}
+}
